@@ -79,6 +79,18 @@ def run(ctx):
                     res.violations.append({"what": "after a failed evaluation the repaired pipeline does not evaluate to what plain execution gives: %s vs %s (error %s)" % (
                         r2["value"], rr2["value"], r2["error"]), "input": case, "kf": None})
                     continue
+                # the store is what a fresh store would be after the repaired evaluation: every path it keeps (also below
+                # a function whose result survived the failure and is now served) loads the value its keep returned
+                stale = None
+                for pth, want in sorted(s.ref_paths.items()):
+                    got = s.load(pth)
+                    res.count("paths_loaded_after_repair")
+                    if got["error"] is not None or pipeline.norm_ext(got["value"]) != pipeline.norm_ext(want):
+                        stale = "after the failed evaluation and the repaired one, path %s loads %s; its keep returned %r" % (pth, got, want)
+                        break
+                if stale:
+                    res.violations.append({"what": stale, "input": dict(case, stored_before_failure=completed), "kf": None})
+                    continue
                 # model
                 if ctx["driver_ok"]:
                     ans = common.drv_batch([{"op": "history", "max": 10000, "steps": msteps}])[0]
